@@ -20,6 +20,18 @@ def ncs(z):
     return mp.ncdf(z), mp.ncdf(-z)
 
 
+def e_neg(t):
+    """(1 - exp(-t), exp(-t)) for t >= 0, safe for astronomically large t"""
+    if t > 10 ** 6:   # exp(-1e6) ~ 1e-434295: zero for every f64 purpose
+        return mpf(1), mpf(0)
+    return -mp.expm1(-t), mp.exp(-t)
+
+
+def pow_safe(logt):
+    """exp(logt), clipped to [exp(-1e7), exp(1e7)] (far outside anything that matters)"""
+    return mp.exp(max(min(logt, mpf(10) ** 7), -mpf(10) ** 7))
+
+
 def quad_panels(f, pts):
     """sum of mp.quad over consecutive panels (each panel separately => robust for peaked f)"""
     tot = mpf(0)
@@ -41,8 +53,7 @@ def ref_lognormal(p, x):
 
 
 def ref_exp(p, x):
-    t = M(p[0]) * M(x)
-    return -mp.expm1(-t), mp.exp(-t)
+    return e_neg(M(p[0]) * M(x))
 
 
 def _pos_series(ratio, tol_digits):
@@ -83,6 +94,8 @@ def _gamma_cs(a, t):
     Q = 1 - P in 80+ digit arithmetic; spot-checked by direct quadrature of the density (a >= 1)."""
     if t <= 0:
         return mpf(0), mpf(1)
+    if t > 1000 and t > 3 * a and t > a + 2000:
+        return mpf(1), mpf(0)   # Q < exp(-800): zero for every f64 purpose
     with mp.workdps(DPS + 60):
         pre = mp.exp(a * mp.log(t) - t - mp.loggamma(a + 1))
         c = pre * _pos_series(lambda k: t / (a + 1 + k), DPS + 40)
@@ -144,8 +157,11 @@ def _beta_cs(a, b, x, y):
                     v = quad_panels(f, _peak_panels(mode, w, 0, 1, x, mpf(1)))
             assert abs(v - small) < mpf(10) ** (-28) + mpf(10) ** (-25) * small, ("beta quad check", a, b, x, small, v)
         elif CHECK_QUAD and max(a, b) <= 50:
-            v = mp.betainc(a, b, 0, x, regularized=True)
-            assert abs(v - c) < mpf(10) ** (-40), ("betainc check", a, b, x, c, v)
+            if x <= y:
+                v, ref_v = mp.betainc(a, b, 0, x, regularized=True), c
+            else:
+                v, ref_v = mp.betainc(b, a, 0, y, regularized=True), s
+            assert abs(v - ref_v) < mpf(10) ** (-40), ("betainc check", a, b, x, ref_v, v)
         return +c, +s
 
 
@@ -202,29 +218,27 @@ def ref_pareto(p, x):
     sc, sh = M(p[0]), M(p[1])
     if x <= p[0]:
         return mpf(0), mpf(1)
-    l = sh * mp.log(M(x) / sc)
-    return -mp.expm1(-l), mp.exp(-l)
+    return e_neg(sh * mp.log(M(x) / sc))
 
 
 def ref_weibull(p, x):
     sc, sh = M(p[0]), M(p[1])
     if x <= 0:
         return mpf(0), mpf(1)
-    t = (M(x) / sc) ** sh
-    return -mp.expm1(-t), mp.exp(-t)
+    return e_neg(pow_safe(sh * mp.log(M(x) / sc)))
 
 
 def ref_gumbel(p, x):
-    e = mp.exp(-(M(x) - M(p[0])) / M(p[1]))
-    return mp.exp(-e), -mp.expm1(-e)
+    c, s = e_neg(pow_safe(-(M(x) - M(p[0])) / M(p[1])))
+    return s, c
 
 
 def ref_frechet(p, x):
     z = (M(x) - M(p[0])) / M(p[1])
     if z <= 0:
         return mpf(0), mpf(1)
-    t = z ** (-M(p[2]))
-    return mp.exp(-t), -mp.expm1(-t)
+    c, s = e_neg(pow_safe(-M(p[2]) * mp.log(z)))
+    return s, c
 
 
 def ref_skewnormal(p, x):
@@ -233,7 +247,7 @@ def ref_skewnormal(p, x):
     al = M(p[2])
     if al == 0:
         return ncs(z)
-    f = lambda t: 2 * mp.npdf(t) * mp.ncdf(al * t)
+    f = lambda t: 2 * mp.npdf(t) * ncs(al * t)[0]
     ia = 1 / abs(al)
     base = [mpf(v) for v in (-40, -20, -10, -6, -4, -3, -2, -1.5, -1, -0.5, 0, 0.5, 1, 1.5, 2, 3, 4, 6, 10, 20, 40)]
     fine = [s * k * ia for k in (0.5, 1, 2, 4, 8, 16, 40) for s in (-1, 1)]
@@ -243,7 +257,7 @@ def ref_skewnormal(p, x):
     hi = [z] + [q for q in pts if q > z]
     c = quad_panels(f, lo)
     s = quad_panels(f, hi)
-    assert abs(c + s - 1) < mpf(10) ** (-30), ("skewnormal quad inconsistent", p, x, c + s - 1)
+    assert abs(c + s - 1) < mpf(10) ** (-(mp.mp.dps * 3 // 5)), ("skewnormal quad inconsistent", p, x, c + s - 1)
     return c, s
 
 
@@ -255,9 +269,11 @@ def ref_invgauss(p, x):
         r = mp.sqrt(lam / xx)
         a = r * (xx / mu - 1)
         b = r * (xx / mu + 1)
-        t2 = mp.exp(2 * lam / mu + mp.log(mp.ncdf(-b))) if mp.ncdf(-b) > 0 else mpf(0)
-        c = mp.ncdf(a) + t2
-        s = mp.ncdf(-a) - t2
+        # for b > 1e8 (inside the envelope lam/mu <= 1e6) |a| ~ b and the term is exp(-a^2/2)/(b sqrt(2 pi)) = 0
+        t2 = mp.exp(2 * lam / mu + mp.log(mp.ncdf(-b))) if b < 1e8 else mpf(0)
+        ca, sa = ncs(a)
+        c = ca + t2
+        s = sa - t2
         return +c, +s
 
 
@@ -276,11 +292,11 @@ def ref_nig(p, x):
 
     def fc(t):
         k, w = kern(t)
-        return k * mp.ncdf(w)
+        return k * ncs(w)[0]
 
     def fs(t):
         k, w = kern(t)
-        return k * mp.ncdf(-w)
+        return k * ncs(w)[1]
 
     tlo = -2 * mp.log(45 + ga)
     thi = 2 * mp.log((45 + ga) / ga)
@@ -288,7 +304,7 @@ def ref_nig(p, x):
     pts = [tlo + (thi - tlo) * i / n for i in range(n + 1)]
     c = quad_panels(fc, pts)
     s = quad_panels(fs, pts)
-    assert abs(c + s - 1) < mpf(10) ** (-35), ("nig quad inconsistent", p, x, c + s - 1)
+    assert abs(c + s - 1) < mpf(10) ** (-(mp.mp.dps * 3 // 5)), ("nig quad inconsistent", p, x, c + s - 1)
     return c, s
 
 
